@@ -99,13 +99,14 @@ type Sim struct {
 	step  int
 	start time.Time
 
-	nodes   map[string]*Node // by name
-	nodeSeq []*Node
-	addrs   map[string]*simListener // "host:port" -> listener (current instance)
-	conns   []*simConn
-	connSeq int
-	actors  []*Actor
-	gmap    map[uint64]*ginfo // goroutine id -> identity
+	nodes     map[string]*Node // by name
+	nodeSeq   []*Node
+	addrs     map[string]*simListener // "host:port" -> listener (current instance)
+	conns     []*simConn
+	connSeq   int
+	connCount map[string]int
+	actors    []*Actor
+	gmap      map[uint64]*ginfo // goroutine id -> identity
 
 	weights   [akCount]int
 	chaos     bool // chaos phase (random) vs drain phase (fair)
